@@ -142,6 +142,11 @@ func nameClass(n string) string {
 // Filename packets carrying these names (by file position).
 var c15UniNames []string
 
+// c15EmptyEntry, when set, makes the reference writer add a zero-length
+// file entry with this name to a PAR2 set.
+var c15EmptyEntry string
+var c15EmptyNoIFSC bool
+
 func buildHostile(d *simdisk.Mem, par1Set bool, names []string, contents [][]byte) string {
 	return buildHostileShadow(d, par1Set, names, contents, 0)
 }
@@ -188,6 +193,10 @@ func buildHostileShadow(d *simdisk.Mem, par1Set bool, names []string, contents [
 		files = append(files, ref.Protected{Name: nm, Data: contents[i]})
 		n += (len(contents[i]) + 3) / 4
 	}
+	if c15EmptyEntry != "" {
+		// an additional zero-length entry (no slices) under a hostile name
+		files = append(files, ref.Protected{Name: c15EmptyEntry, Data: []byte{}})
+	}
 	var exps []int
 	for e := 0; e < n; e++ {
 		exps = append(exps, e)
@@ -195,8 +204,14 @@ func buildHostileShadow(d *simdisk.Mem, par1Set bool, names []string, contents [
 	set := ref.BuildSet(files, 4, exps, "refwriter")
 	var idx, vol []byte
 	idx = append(idx, set.Creator...)
-	for _, p := range set.CriticalPackets() {
-		idx = append(idx, p...)
+	idx = append(idx, set.Main...)
+	for i := range set.FileDesc {
+		idx = append(idx, set.FileDesc[i]...)
+		if c15EmptyEntry != "" && c15EmptyNoIFSC && set.Files[i].Name == c15EmptyEntry {
+			// a file without slices needs no slice-checksum packet
+			continue
+		}
+		idx = append(idx, set.IFSC[i]...)
 	}
 	vol = append(vol, idx...)
 	for _, e := range exps {
@@ -290,6 +305,16 @@ func containment(r *Run) {
 	for i := range names {
 		contents = append(contents, expandContent(ckRandom, uint64(77+i), 5+3*i, 4))
 	}
+	if par1Set && r.SweepCase < 0 && len(names) > 1 && t.Bool(1, 5, "empty-hostile-file") {
+		// a zero-length file (legal in PAR1) under the hostile name
+		for i := range names {
+			if hostileAt[i] {
+				contents[i] = []byte{}
+				r.Probe("par1-empty-file-with-hostile-name")
+				break
+			}
+		}
+	}
 	if par1Set {
 		r.Probe("par1")
 	} else {
@@ -361,8 +386,26 @@ func containment(r *Run) {
 		}
 		r.Probe("unicode-filename-packets")
 	}
+	if !par1Set && r.SweepCase < 0 && t.Bool(1, 5, "zero-length-hostile-entry") {
+		// one more entry: zero bytes long, declared under a hostile name
+		var hn []string
+		for i := range names {
+			if hostileAt[i] {
+				hn = append(hn, names[i])
+			}
+		}
+		if len(hn) > 0 {
+			c15EmptyEntry = hn[t.Draw(len(hn), "empty-name")] + "_0"
+			if t.Bool(1, 2, "plain") {
+				c15EmptyEntry = []string{"../empty", "sub/../../empty", "/canary/empty", "../canary/x"}[t.Draw(4, "empty-corpus")]
+			}
+			c15EmptyNoIFSC = t.Bool(1, 2, "no-ifsc")
+			r.Probe("zero-length-entry-with-hostile-name")
+		}
+	}
 	index := buildHostileShadow(d, par1Set, names, contents, shadow)
 	c15UniNames = nil
+	c15EmptyEntry = ""
 	w := &World{Par1: par1Set, Disk: d, Dir: c15Dir, Base: "set", Index: index, S: 4}
 	// the index path as the caller spells it: absolute, relative to the
 	// archive directory, or relative to its parent (the base directory
